@@ -269,6 +269,74 @@ finally:
     return (ok, detail)
 
 
+# ------------------------------------------------------------------ which members are calendar objects: one answer everywhere
+NAMES_M = ["a.ics", "z.ics.gz", "Z.ICS", "m.ics.bz2", "p.txt", "q.vcf", "r.ics.txt", "noext", "s.ics.xz"]
+
+
+def body_uid_names(hi, wi, cold):
+    """Two sites decide whether a member is a calendar object: the listing (which fixes the media type a member is
+    served, overwritten and reported under) and the UID scan.  For every pair of names from a menu with encoding
+    suffixes, upper-case extensions, foreign extensions and none: a first PUT (text/calendar, UID a) to the holder
+    name, then a PUT with the same UID and other content to the writer name, through the web layer, by the same
+    server or a restarted one.  Whatever the names, the members the server SERVES as text/calendar never share a
+    UID, a refusal leaves the writer name 404, and the second PUT is refused exactly when the holder is served as
+    text/calendar."""
+    from xv.core import picks, untraced
+    from xv.env import mweb
+    hi, wi, cold = picks((hi, wi, cold), (len(NAMES_M), len(NAMES_M), "bool"))
+    with untraced():
+        kind = ctx.PART
+        holder, writer = NAMES_M[hi], NAMES_M[wi]
+        if holder == writer:
+            return (True, "same-name")
+        import xandikos.web as Wb
+        mweb.fresh_world({}, {"c.vcf": b"v1"}, kind=kind)
+        app = mweb.make_app()
+        r = mweb.call(app, "PUT", mweb.CAL + "/" + holder, body=b"xa", content_type="text/calendar")
+        if r.status_class != "2xx":
+            return (False, "holder-refused")
+        g = mweb.call(app, "GET", mweb.CAL + "/" + holder)
+        if g.status_class != "2xx" or g.body != b"xa":
+            return (False, "holder-not-served")
+        is_cal = (g.header("Content-Type") or "").startswith("text/calendar")
+        if holder.lower().endswith(".ics") and not is_cal:
+            return (False, "ics-not-calendar")
+        if cold:
+            Wb.open_store_from_path.cache_clear()
+            app = mweb.make_app()
+        r = mweb.call(app, "PUT", mweb.CAL + "/" + writer, body=b"ya", content_type="text/calendar")
+        cls = ("cal" if is_cal else "other") + ":" + r.status_class
+        if (r.status_class == "412") != is_cal or r.status_class not in ("2xx", "412"):
+            return (False, cls)
+        for restart in (False, True):
+            if restart:
+                Wb.open_store_from_path.cache_clear()
+                app = mweb.make_app()
+            seen = []
+            for n in (holder, writer):
+                g = mweb.call(app, "GET", mweb.CAL + "/" + n)
+                if n == writer and r.status_class == "412":
+                    if g.status_class != "404":
+                        return (False, cls + ":refused-but-present")
+                    continue
+                if g.status_class != "2xx" or g.body != (b"xa" if n == holder else b"ya"):
+                    return (False, cls + ":not-served")
+                if (g.header("Content-Type") or "").startswith("text/calendar"):
+                    u = SP.uid("x.ics", g.body)
+                    if u in seen:
+                        return (False, cls + ":shared-uid")
+                    seen.append(u)
+        return (True, cls)
+
+
+def h_uid_names(hi: int, wi: int, cold: bool) -> bool:
+    """
+    pre: 0 <= hi < len(NAMES_M) and 0 <= wi < len(NAMES_M)
+    post: _
+    """
+    return run(body_uid_names, hi, wi, cold)
+
+
 # ------------------------------------------------------------------ real iCalendar bodies, real parser, real stores
 def _ic(uidline):
     return (b"BEGIN:VCALENDAR\r\nVERSION:2.0\r\nPRODID:-//x//y//EN\r\nBEGIN:VEVENT\r\n" + uidline +
@@ -374,6 +442,16 @@ HARNESSES = [
                      "xandikos.store.git.GitStore.import_one", "xandikos.store.git.BareGitStore.delete_one",
                      "xandikos.store.git.TreeGitStore.delete_one", "xandikos.store.vdir.VdirStore._scan_uids",
                      "xandikos.store.vdir.VdirStore.delete_one", "xandikos.store.vdir.VdirStore.import_one"]),
+    Harness("uid_names", h_uid_names, body_uid_names, classes=[("cal:412", "tree"), ("other:2xx", "bare")],
+            parts={"quick": ["tree", "bare"]}, budget={"quick": 60, "thorough": 120},
+            describe="holder and writer names from a menu of 9 (encoding suffixes .gz/.bz2/.xz, upper-case extension, foreign "
+                     "and no extension), same UID, through the web layer, warm or restarted server: the second PUT is refused "
+                     "exactly when the holder is served as text/calendar, a refusal leaves the name 404, and members served as "
+                     "text/calendar never share a UID; exhaustive over the menu; part = store kind",
+            encodes=["xandikos.store.open_by_extension", "xandikos.store.open_by_content_type",
+                     "xandikos.store.git.GitStore.iter_with_etag", "xandikos.store.git.GitStore._scan_uids",
+                     "xandikos.store.git.GitStore._check_duplicate", "xandikos.web.StoreBasedCollection.create_member",
+                     "xandikos.web.StoreBasedCollection._get_resource"]),
     Harness("real_uids", h_real_uids, body_real_uids, classes=["refused", "accepted"], budget={"quick": 45, "thorough": 90},
             describe="9 pairs of real iCalendar bodies whose UIDs need the real parser to compare (escapes, folding, a "
                      "parameter, case, non-ASCII) on the real BareGitStore over a MemoryRepo and the real VdirStore, with or "
